@@ -3,7 +3,7 @@
 AST: ("lit", name) | ("not", x) | ("and", x, y) | ("or", x, y) | ("true",); a literal containing * ? [ is a wildcard."""
 
 def glob_match(pat, s):
-    """hand-written case-sensitive glob (*, ?, [set]); no fnmatch involved"""
+    """hand-written case-sensitive glob (*, ?, [seq], [!seq], ranges); no fnmatch involved"""
     def m(i, j):
         while i < len(pat):
             ch = pat[i]
@@ -19,7 +19,21 @@ def glob_match(pat, s):
                     if s[j] != "[":
                         return False
                 else:
-                    if s[j] not in pat[i + 1:end]:
+                    # fnmatch semantics (the documentation refers to fnmatch): [seq], [!seq], ranges a-c
+                    body = pat[i + 1:end]
+                    neg = body.startswith("!")
+                    if neg:
+                        body = body[1:]
+                    chars = set()
+                    q = 0
+                    while q < len(body):
+                        if q + 2 < len(body) and body[q + 1] == "-":
+                            chars.update(chr(c) for c in range(ord(body[q]), ord(body[q + 2]) + 1))
+                            q += 3
+                        else:
+                            chars.add(body[q])
+                            q += 1
+                    if (s[j] in chars) == neg:
                         return False
                     i = end
             elif ch != s[j]:
